@@ -150,6 +150,8 @@ pub struct Module {
     pub own_start: bool,
     /// lines placed at the start of the check function (before the use sites), e.g. a local in a dead scope
     pub pre_body: Vec<String>,
+    /// (main file only) the program's `start` is not defined here but from-imported from this module
+    pub start_from: Option<usize>,
     /// a module file that holds nothing at all (a split in which one file got no globals): its whole text
     pub blank: Option<String>,
 }
@@ -293,7 +295,7 @@ fn render_module(m: &Module, is_main: bool) -> String {
         s.push('\n');
     }
     s.push('\n');
-    s.push_str(if is_main || m.own_start { "start :: fn do\n" } else { "zchk :: fn do\n" });
+    s.push_str(if (is_main && m.start_from.is_none()) || m.own_start { "start :: fn do\n" } else { "zchk :: fn do\n" });
     // a marker that identifies this function in the emitted Lua
     s.push_str(&format!("    zmark := \"{}\"\n    zmark <=> \"{}\"\n", marker_of(&m.rel), marker_of(&m.rel)));
     for l in &m.pre_body {
@@ -443,6 +445,7 @@ pub fn generate_with(seed: u64, with_std: bool) -> Project {
         raw_top: vec![],
         own_start: false,
         pre_body: vec![],
+        start_from: None,
         blank: None,
     }];
     let mut used_paths: BTreeSet<String> = BTreeSet::new();
@@ -469,7 +472,7 @@ pub fn generate_with(seed: u64, with_std: bool) -> Project {
             } else {
                 None
             };
-            modules.push(Module { rel, globals: vec![], imports: vec![], uses: vec![], raw_body: vec![], raw_top: vec![], own_start: own_start && blank.is_none(), pre_body: vec![], blank });
+            modules.push(Module { rel, globals: vec![], imports: vec![], uses: vec![], raw_body: vec![], raw_top: vec![], own_start: own_start && blank.is_none(), pre_body: vec![], start_from: None, blank });
         }
     }
 
@@ -687,6 +690,24 @@ pub fn generate_with(seed: u64, with_std: bool) -> Project {
         }
     }
 
+    // ---- the program's `start` lives in another file and the main file from-imports it
+    if Rng::sub(seed, "start-from").chance(1, 10) {
+        let cand: Option<(usize, String)> = modules[0]
+            .imports
+            .iter()
+            .filter(|i| i.target != 0 && modules[i.target].own_start && modules[i.target].blank.is_none())
+            .map(|i| (i.target, i.spec.clone()))
+            .next();
+        let b0 = model_bindings(&modules, 0);
+        if let Some((t, spec)) = cand {
+            if !b0.names.contains_key("start") && !b0.ns.contains_key("start") {
+                modules[0].start_from = Some(t);
+                modules[0].raw_top.push(format!("from {} use start", spec));
+                features.insert("start_from_imported_module");
+            }
+        }
+    }
+
     // ---- a standard module imported under an alias next to its standard name
     if with_std && Rng::sub(seed, "std-alias").chance(1, 5) {
         let f = Rng::sub(seed, "std-alias-file").below(modules.len());
@@ -839,7 +860,7 @@ pub fn generate_with(seed: u64, with_std: bool) -> Project {
     let closure_before = model_closure(&modules, &existing_all);
     let loaded: Vec<usize> = (0..modules.len()).filter(|i| closure_before.contains(&modules[*i].rel)).collect();
     if tr.chance(1, 3) {
-        let mut order: Vec<usize> = (0..11).collect();
+        let mut order: Vec<usize> = (0..12).collect();
         tr.shuffle(&mut order);
         'outer: for which in order {
             let f = *tr.pick(&loaded);
@@ -949,6 +970,29 @@ pub fn generate_with(seed: u64, with_std: bool) -> Project {
                         }
                     }
                 }
+                11 => {
+                    // one plain name for two different globals: the second from-import must not be dropped silently
+                    if let Some((name, (t1, g1))) = b.names.iter().find(|(_, (t, _))| *t != f).map(|(n, tg)| (n.clone(), tg.clone())) {
+                        let mut done = false;
+                        for &t2 in &loaded {
+                            if t2 == t1 || t2 == f {
+                                continue;
+                            }
+                            if let Some(g2) = modules[t2].globals.iter().find(|g| g.copies.is_none() && (g.name != g1 || t2 != t1)).cloned() {
+                                if let Some((spec, _)) = specs_for(&modules, f, t2).first().cloned() {
+                                    let line = if g2.name == name { format!("from {} use {}", spec, g2.name) } else { format!("from {} use {} as {}", spec, g2.name, name) };
+                                    modules[f].raw_top.push(line);
+                                    done = true;
+                                    break;
+                                }
+                            }
+                        }
+                        if done {
+                            twist = Some("plain-name-bound-to-two-globals".into());
+                            break 'outer;
+                        }
+                    }
+                }
                 9 => {
                     // a mutable global of another module assigned a value of the wrong type
                     if let Some(u) = modules[f].uses.iter().find(|u| u.target.0 != f && !u.call && !matches!(u.ty, Ty::Blob(..) | Ty::Enum(..)) && modules[u.target.0].globals.iter().any(|g| g.name == u.target.1 && g.init.contains(" := "))).cloned() {
@@ -1041,7 +1085,7 @@ impl Project {
             .set("expect_reads", crate::json::arr_str(self.expect_reads.iter()))
             .set("removed", crate::json::arr_str(self.removed.iter().map(|r| format!("{}/{}", PROJECT_DIR, r))))
             .set("flattened", self.flattened.as_ref().map(|t| J::s(t)).unwrap_or(J::Null))
-            .set("main_marker", J::s(&marker_of("main.sy")))
+            .set("main_marker", J::s(&marker_of(if self.modules[0].start_from.is_some() { "other" } else { "main.sy" })))
             .set("features", crate::json::arr_str(self.features.iter()))
     }
 }
